@@ -200,6 +200,78 @@ def check_exact_read(repo: Repo, ob: Obligation, fi: FuncInfo) -> None:
             ob.violation(fi, x, "the accumulate loop can be left before n bytes arrived")
 
 
+def proxy_callbacks(repo: Repo) -> dict:
+    """the two callbacks serve_proxy_io registers, however they are packaged: nested functions closing over `sub_io` /
+    `control_chan`, or bound methods of a small helper object built from them.  Returns
+    {"forward": (callback FuncInfo, names of the sub io inside it, names of the control channel inside it), "control": (...)}"""
+    fsp = repo.func("gateway_io.serve_proxy_io")
+    proxy_param = fsp.params()[0]
+    subs = [n.targets[0].id for n in repo.own_nodes(fsp) if isinstance(n, ast.Assign) and isinstance(n.targets[0], ast.Name) and isinstance(n.value, ast.Call)
+            and unparse(n.value.func).split(".")[-1] == "create_io"]
+    if len(subs) != 1:
+        raise AnalysisError("serve_proxy_io: the sub io (create_io(...)) is not bound to one local")
+    S = subs[0]
+    out: dict = {}
+    for c in repo.calls_in(fsp):
+        if callee_attr(c) != "setcallback" or not c.args or not isinstance(c.func, ast.Attribute):
+            continue
+        role = "forward" if unparse(c.func.value) == proxy_param else "control"
+        recv = unparse(c.func.value)
+        cb = c.args[0]
+        fi = None
+        sub_names, ctl_names = {S}, ({recv} if role == "control" else set())
+        if isinstance(cb, ast.Name) and repo.has_func(f"{fsp.qualname}.{cb.id}"):
+            fi = repo.func(f"{fsp.qualname}.{cb.id}")
+        elif isinstance(cb, ast.Attribute) and isinstance(cb.value, ast.Name):
+            mk = repo.local_alias(cb.value.id, fsp)
+            if isinstance(mk, ast.Call) and isinstance(mk.func, ast.Name) and mk.func.id in repo.classes:
+                ci = repo.classes[mk.func.id]
+                m = repo.lookup_method(ci, cb.attr)
+                init = ci.methods.get("__init__")
+                if m is not None and init is not None:
+                    fi = repo.flat(m)
+                    formals = [a.arg for a in init.node.args.args][1:]
+                    actual = dict(zip(formals, mk.args))
+                    actual.update({k.arg: k.value for k in mk.keywords if k.arg})
+                    sub_names, ctl_names = set(), set()
+                    for st_ in init.node.body:
+                        if isinstance(st_, ast.Assign) and len(st_.targets) == 1 and isinstance(st_.targets[0], ast.Attribute) and unparse(st_.targets[0].value) == "self" \
+                                and isinstance(st_.value, ast.Name) and st_.value.id in actual:
+                            a = unparse(actual[st_.value.id])
+                            # fields of the helper object must not be re-bound anywhere
+                            if st_.targets[0].attr in repo._stored_attr_names() and sum(1 for f_ in repo.funcs.values() for x in ast.walk(f_.node)
+                                                                                        if isinstance(x, ast.Attribute) and x.attr == st_.targets[0].attr and isinstance(x.ctx, ast.Store)) > 1:
+                                continue
+                            if a == S:
+                                sub_names.add(f"self.{st_.targets[0].attr}")
+                            if role == "control" and a == recv:
+                                ctl_names.add(f"self.{st_.targets[0].attr}")
+                            elif role == "forward" and a != S:
+                                pass
+                    # the control channel field is needed in the control callback only
+                    if role == "forward":
+                        ctl_names = set()
+        if fi is not None:
+            out[role] = (fi, sub_names, ctl_names, c)
+    return out
+
+
+def check_forward_to_sub(ob, repo: Repo) -> None:
+    """master -> sub direction: the callback registered on the proxy channel writes exactly its argument to the sub io"""
+    from ..util import xtext
+    cbs = proxy_callbacks(repo)
+    fsp = repo.func("gateway_io.serve_proxy_io")
+    if "forward" not in cbs:
+        ob.violation(fsp, fsp.node, "forward_to_sub is not registered as the callback of the proxy channel")
+        return
+    ffs, subs, _ctl, reg = cbs["forward"]
+    ws = [c for c in repo.calls_in(ffs) if callee_attr(c) == "write"]
+    p = [x for x in ffs.params() if x != "self"]
+    ob.site(ffs, ws[0] if ws else ffs.node, "forward_to_sub writes its parameter unmodified to the sub")
+    if len(ws) != 1 or len(ws[0].args) != 1 or not p or unparse(ws[0].args[0]) != p[0] or xtext(repo, ffs, ws[0].func.value) not in subs:
+        ob.violation(ffs, ffs.node, "forward_to_sub does not write exactly the received bytes to the sub process")
+
+
 def check_forwarder_loop(ob, repo: Repo) -> None:
     """sub -> master direction of serve_proxy_io, over value terms along all feasible paths (helpers and simple
     generators inlined): every Message read from the sub io is re-emitted, as that very object, to the 'w' channel
@@ -434,15 +506,7 @@ def check(ctx: Ctx) -> None:
 
     with ctx.obligation("C08.e", "reframe-identity") as ob:
         fsp = repo.func("gateway_io.serve_proxy_io")
-        ffs = repo.func("gateway_io.serve_proxy_io.forward_to_sub")
-        ws = [c for c in repo.calls_in(ffs) if callee_attr(c) == "write"]
-        p = [x for x in ffs.params()]
-        ob.site(ffs, ws[0] if ws else ffs.node, "forward_to_sub writes its parameter unmodified to the sub")
-        if len(ws) != 1 or len(ws[0].args) != 1 or unparse(ws[0].args[0]) != p[0] or unparse(ws[0].func.value) != "sub_io":
-            ob.violation(ffs, ffs.node, "forward_to_sub does not write exactly the received bytes to the sub process")
-        reg = [c for c in repo.calls_in(fsp) if callee_attr(c) == "setcallback" and c.args and unparse(c.args[0]) == "forward_to_sub"]
-        if len(reg) != 1:
-            ob.violation(fsp, fsp.node, "forward_to_sub is not registered as the callback of the proxy channel")
+        check_forward_to_sub(ob, repo)
         check_forwarder_loop(ob, repo)
         # master side: ProxyIO.write = one iochan.send(data)
         pw = repo.func("gateway_io.ProxyIO.write")
